@@ -13,6 +13,11 @@ def run(ctx):
     t = system.record(ctx, "sys")
     system.validate(ctx, t, ["TrLife"], "general scenarios")
     system.engine_traces(ctx, t, "general scenarios")
+    if vlib.have_strace():
+        # an accept error the loop does not survive (the descriptor table is full) ends the engine: that shutdown must be
+        # as complete as a requested one
+        t = system.record(ctx, "accept-fatal", test="TestVerifFaults", env={"VERIF_FAULT_SET": "fatal"})
+        system.validate(ctx, t, ["TrLife", "TrFd"], "engine ended by a fatal accept error")
     t = system.record(ctx, "client", test="TestVerifClient")
     system.validate(ctx, t, ["TrLife"], "client engines ended by Client.Stop")
     system.engine_traces(ctx, t, "client engines")
